@@ -33,6 +33,8 @@ def configs(tier, seed):
     for shp in ((4, 4), (3, 4)):
         for sc in ('3/4', '1', '5/4', '3/2', '2'):
             out.append({'shape': list(shp), 'scale': sc, 'amp': 'array', 'opd': 'array', 'nseg': 1, 'inner': True})
+            if Fraction(sc) >= 1:
+                out.append({'shape': list(shp), 'scale': sc, 'amp': 'array', 'opd': 'array', 'nseg': 2, 'inner': True})       # two segments with free edges
     return out, len(out), True
 
 
@@ -45,7 +47,11 @@ def run(W, cfg):
     px = (W.real('pxr', pos=True), W.real('pxc', pos=True))
     A = W.reals('a', shp, lo='1/4', hi=1) if cfg['amp'] == 'array' else W.real('a', lo='1/4', hi=1)
     O = W.reals('o', shp, lo=-1, hi=1, nz=True) if cfg['opd'] == 'array' else W.real('o', lo=-1, hi=1)
-    if cfg.get('inner'):
+    if cfg.get('inner') and cfg['nseg'] == 2:
+        mask = rnp.zeros((2,) + shp, dtype=int)
+        mask[0, 1:-1, 1:2] = 1
+        mask[1, 1:-1, 2:] = 1
+    elif cfg.get('inner'):
         mask = rnp.zeros(shp, dtype=int)
         mask[1:-1, 1:] = 1
     elif cfg['nseg'] == 1:
